@@ -325,6 +325,43 @@ func runC17(c *Ctx) {
 		}
 	}
 
+	// ---- O3 (event predicate): every transition of a pod into a terminal phase is a completion event — the
+	// predicate may say "no" only when the phase did not change, the new phase is not terminal, or the objects are
+	// not pods
+	if ce := c.Anchor("O3", "pkg/binder/controllers", "", "isCompletionEvent"); ce != nil {
+		paths := fx.retPaths(ce, 0, WantFalse)
+		for i, rp := range paths {
+			okSet := func(fs FactSet) bool {
+				_, ok := fs.find(func(f Fact) bool {
+					t := f.T
+					// not a pod
+					if !f.Pol && t.Op == "extract" && t.Name == "1" && t.Args[0].Op == "typeassert" {
+						return true
+					}
+					// same phase
+					if t.Op == "bin" && len(t.Args) == 2 && t.Args[0].lastField() == "Phase" && t.Args[1].lastField() == "Phase" {
+						return (t.Name == "==" && f.Pol) || (t.Name == "!=" && !f.Pol)
+					}
+					// new phase not terminal
+					if !f.Pol && t.Op == "call" && strings.Contains(t.Name, "Contains") {
+						return true
+					}
+					if t.Op == "bin" && len(t.Args) == 2 && t.Args[0].lastField() == "Phase" && rootParam(t.Args[0]) == 1 {
+						a := t.Args[1].String()
+						if strings.Contains(a, `"Failed"`) || strings.Contains(a, `"Succeeded"`) {
+							return (t.Name == "==" && !f.Pol) || (t.Name == "!=" && f.Pol)
+						}
+					}
+					return false
+				})
+				return ok
+			}
+			c.Check(fx.acceptWithExpansion(rp.Facts, okSet), "O3", "RET", fmt.Sprintf("%s false path#%d", funcKey(ce), i), rp.Pos, "not a pod, phase unchanged, or new phase not terminal",
+				"a pod update is not treated as a completion for another reason (e.g. the old phase was not Running): a consumer that goes from Pending straight to Failed/Succeeded does not trigger the sync of its GPU group and its reservation pod stays without a live consumer")
+		}
+		c.Floor("O3", "RET non-completion paths", len(paths), 2)
+	}
+
 	// ---- O5: the consumer label is written on the caller's pod object
 	if up := c.Anchor("O5", pkgResv, "service", "updatePodGPUGroup"); up != nil {
 		var podParam *ssa.Parameter
